@@ -1,7 +1,638 @@
-//! C28 — not built yet.
-use vcore::Ctx;
+//! C28 — DataLoader delivers correct batched results under every interleaving.
+//!
+//! A world = one `DataLoader` over a gated, logging, scripted `Loader`, a spawner that queues into the
+//! deterministic executor and a timer whose sleeps are gates. A schedule is a sequence of actions
+//! {start request i, poll a woken task, fire a timer, complete a loader call, drop a waiting request}; the same
+//! sequence always gives the same run. The oracle looks at the event log at quiescence.
+use crate::c29::{ordered_map, AnyCache, Mode, QSpawner};
+use async_graphql::dataloader::{DataLoader, Loader};
+use async_graphql::runtime::Timer;
+use futures_util::future::BoxFuture;
+use futures_util::FutureExt;
+use std::collections::{BTreeMap, BTreeSet, HashMap};
+use std::sync::atomic::{AtomicUsize, Ordering};
+use std::sync::{Arc, Mutex};
+use std::time::{Duration, Instant};
+use vcore::det::{Gates, Sim};
+use vcore::drive::catch;
+use vcore::{json, Case, Ctx, Src};
 
-pub fn run(_ctx: &mut Ctx) {
-    eprintln!("C28: check not built yet");
-    std::process::exit(2);
+#[derive(Clone, Copy, Default, Debug, PartialEq)]
+struct CallScript {
+    fail: bool,
+    /// bit k set: the loader leaves key k out of its answer
+    omit: u8,
+}
+
+#[derive(Clone, Debug)]
+struct Cfg {
+    reqs: Vec<Vec<u8>>,
+    max_batch: usize,
+    cache: Mode,
+    /// behaviour of the j-th `Loader::load` call (calls beyond the script succeed completely)
+    script: Vec<CallScript>,
+    max_drops: usize,
+}
+
+impl Cfg {
+    fn text(&self) -> String {
+        let sc: Vec<String> = self
+            .script
+            .iter()
+            .enumerate()
+            .filter(|(_, c)| **c != CallScript::default())
+            .map(|(j, c)| if c.fail { format!("L{}:fail", j) } else { format!("L{}:omit{:?}", j, (0..8u8).filter(|k| c.omit & (1 << k) != 0).collect::<Vec<_>>()) })
+            .collect();
+        format!("load_many requests={:?} max_batch_size={} {} loader script=[{}]", self.reqs, self.max_batch, self.cache.name(), sc.join(","))
+    }
+}
+
+fn value(call: usize, key: u8) -> u32 {
+    1000 * (call as u32 + 1) + key as u32
+}
+
+struct Call {
+    keys: Vec<u8>,
+    start: u64,
+    end: Option<u64>,
+}
+
+type LoadResult = Result<BTreeMap<u8, u32>, u32>;
+
+/// event log with one global sequence counter (every poll is atomic, so sequence order is real order)
+#[derive(Default)]
+struct Log {
+    seq: u64,
+    calls: Vec<Call>,
+    req_start: Vec<Option<u64>>,
+    req_done: Vec<Option<u64>>,
+    results: Vec<Option<LoadResult>>,
+    trace: Vec<String>,
+}
+impl Log {
+    fn tick(&mut self) -> u64 {
+        self.seq += 1;
+        self.seq
+    }
+}
+type SharedLog = Arc<Mutex<Log>>;
+fn locked(l: &SharedLog) -> std::sync::MutexGuard<'_, Log> {
+    l.lock().unwrap_or_else(|e| e.into_inner())
+}
+
+struct GLoader {
+    gates: Gates,
+    log: SharedLog,
+    script: Vec<CallScript>,
+}
+impl Loader<u8> for GLoader {
+    type Value = u32;
+    type Error = u32;
+    async fn load(&self, keys: &[u8]) -> Result<HashMap<u8, u32>, u32> {
+        let keys: Vec<u8> = keys.to_vec();
+        let j = {
+            let mut l = locked(&self.log);
+            let start = l.tick();
+            let mut sorted = keys.clone();
+            sorted.sort();
+            let j = l.calls.len();
+            l.trace.push(format!("[L{} called with {:?}]", j, sorted));
+            l.calls.push(Call { keys: keys.clone(), start, end: None });
+            l.calls.len() - 1
+        };
+        self.gates.wait(format!("L{}", j)).await;
+        {
+            let mut l = locked(&self.log);
+            let end = l.tick();
+            l.calls[j].end = Some(end);
+        }
+        let sc = self.script.get(j).copied().unwrap_or_default();
+        if sc.fail {
+            return Err(j as u32);
+        }
+        let mut ks: Vec<u8> = keys.into_iter().filter(|k| sc.omit & (1 << k) == 0).collect();
+        ks.sort();
+        ks.dedup();
+        let pairs: Vec<(u8, u32)> = ks.into_iter().map(|k| (k, value(j, k))).collect();
+        Ok(ordered_map(&pairs))
+    }
+}
+
+struct GTimer {
+    gates: Gates,
+    n: AtomicUsize,
+}
+impl Timer for GTimer {
+    fn delay(&self, _d: Duration) -> BoxFuture<'static, ()> {
+        let i = self.n.fetch_add(1, Ordering::SeqCst);
+        self.gates.wait(format!("T{}", i)).boxed()
+    }
+}
+
+#[derive(Clone, Copy, Debug, PartialEq)]
+enum Act {
+    Start(usize),
+    Poll(usize),
+    Fire(usize),
+    Complete(usize),
+    Drop(usize),
+}
+
+struct World {
+    sim: Sim,
+    gates: Gates,
+    dl: Arc<DataLoader<GLoader, AnyCache>>,
+    log: SharedLog,
+    task_of: Vec<usize>,
+    dropped: Vec<bool>,
+    drops: usize,
+}
+
+impl World {
+    fn new(cfg: &Cfg, log: SharedLog) -> World {
+        let sim = Sim::new();
+        let gates = Gates::new();
+        {
+            let mut l = locked(&log);
+            l.req_start = vec![None; cfg.reqs.len()];
+            l.req_done = vec![None; cfg.reqs.len()];
+            l.results = vec![None; cfg.reqs.len()];
+        }
+        let loader = GLoader { gates: gates.clone(), log: log.clone(), script: cfg.script.clone() };
+        let dl = DataLoader::with_cache(loader, QSpawner(sim.spawned.clone()), GTimer { gates: gates.clone(), n: AtomicUsize::new(0) }, AnyCache(cfg.cache))
+            .max_batch_size(cfg.max_batch);
+        World { sim, gates, dl: Arc::new(dl), log, task_of: vec![], dropped: vec![false; cfg.reqs.len()], drops: 0 }
+    }
+
+    /// enabled actions in a fixed order; empty = quiescent (every request started, no timer pending, no loader
+    /// call pending, nothing woken)
+    fn enabled(&self, cfg: &Cfg, fine: bool) -> Vec<Act> {
+        let mut v = vec![];
+        let next = self.task_of.len();
+        if next < cfg.reqs.len() {
+            v.push(Act::Start(next));
+        }
+        if fine {
+            v.extend(self.sim.woken().into_iter().map(Act::Poll));
+        }
+        for (g, label) in self.gates.pending() {
+            v.push(if label.starts_with('T') { Act::Fire(g) } else { Act::Complete(g) });
+        }
+        if !v.is_empty() && self.drops < cfg.max_drops {
+            v.extend((0..next).filter(|i| !self.dropped[*i] && !self.sim.is_done(self.task_of[*i])).map(Act::Drop));
+        }
+        v
+    }
+
+    fn apply(&mut self, cfg: &Cfg, a: Act, fine: bool) {
+        match a {
+            Act::Start(i) => {
+                {
+                    let mut l = locked(&self.log);
+                    let t = l.tick();
+                    l.req_start[i] = Some(t);
+                    l.trace.push(format!("start r{}", i));
+                }
+                let dl = self.dl.clone();
+                let log = self.log.clone();
+                let keys = cfg.reqs[i].clone();
+                let t = self.sim.spawn(
+                    &format!("r{}", i),
+                    Box::pin(async move {
+                        let r = dl.load_many(keys).await;
+                        let mut l = locked(&log);
+                        let t = l.tick();
+                        l.req_done[i] = Some(t);
+                        l.results[i] = Some(r.map(|m| m.into_iter().collect()));
+                    }),
+                );
+                self.task_of.push(t);
+                self.sim.poll_task(t);
+            }
+            Act::Poll(t) => {
+                locked(&self.log).trace.push(format!("poll {}#{}", self.sim.task_name(t), t));
+                self.sim.poll_task(t);
+            }
+            Act::Fire(g) | Act::Complete(g) => {
+                let label = self.gates.labels()[g].clone();
+                locked(&self.log).trace.push(format!("{} {}", if matches!(a, Act::Fire(_)) { "fire" } else { "complete" }, label));
+                self.gates.open(g);
+            }
+            Act::Drop(i) => {
+                {
+                    let mut l = locked(&self.log);
+                    let t = l.tick();
+                    // for a dropped request `req_done` is the time of the drop; it has no result
+                    l.req_done[i] = Some(t);
+                    l.trace.push(format!("drop r{}", i));
+                }
+                self.sim.cancel(self.task_of[i]);
+                self.dropped[i] = true;
+                self.drops += 1;
+            }
+        }
+        if !fine && !self.sim.settle() {
+            panic!("tasks keep waking each other (100000 rounds without reaching quiescence)");
+        }
+    }
+}
+
+#[derive(Default)]
+struct Stats {
+    overlapped: bool,
+    cache_hit: bool,
+    shared_batch: bool,
+    at_max: bool,
+    over_max: bool,
+    loader_error: bool,
+    omission: bool,
+    dropped: bool,
+    mixed: bool,
+    refetch_in_flight: bool,
+}
+
+/// The oracle, from the property statement; evaluated at quiescence.
+fn oracle(cfg: &Cfg, l: &Log, dropped: &[bool]) -> Result<Stats, String> {
+    let mut st = Stats::default();
+    let largest = cfg.reqs.iter().map(|r| r.len()).max().unwrap_or(0);
+    let script = |j: usize| cfg.script.get(j).copied().unwrap_or_default();
+    let returned = |j: usize, k: u8| l.calls[j].keys.contains(&k) && !script(j).fail && script(j).omit & (1 << k) == 0;
+    for (j, c) in l.calls.iter().enumerate() {
+        let set: BTreeSet<u8> = c.keys.iter().copied().collect();
+        if set.len() != c.keys.len() {
+            return Err(format!("loader call L{} was given a key twice: {:?}", j, c.keys));
+        }
+        if c.keys.len() >= cfg.max_batch + largest {
+            return Err(format!("loader call L{} has {} keys {:?}: not less than max_batch_size {} + largest single request {}", j, c.keys.len(), c.keys, cfg.max_batch, largest));
+        }
+        if c.end.is_none() {
+            return Err(format!("internal: loader call L{} not completed at quiescence", j));
+        }
+        st.at_max |= c.keys.len() >= cfg.max_batch;
+        st.over_max |= c.keys.len() > cfg.max_batch;
+    }
+    let mut served_by: Vec<BTreeSet<usize>> = vec![BTreeSet::new(); cfg.reqs.len()];
+    for (i, keys) in cfg.reqs.iter().enumerate() {
+        st.dropped |= dropped[i];
+        let t0 = l.req_start[i].ok_or_else(|| format!("internal: r{} never started", i))?;
+        let end_i = l.req_done[i].unwrap_or(u64::MAX);
+        st.overlapped |= (0..cfg.reqs.len()).any(|o| o != i && l.req_start[o].map_or(false, |t| t > t0 && t < end_i));
+        if dropped[i] {
+            continue;
+        }
+        let (done, result) = match (l.req_done[i], &l.results[i]) {
+            (Some(d), Some(r)) => (d, r),
+            _ => {
+                return Err(format!(
+                    "r{} {:?} never completed: the executor is quiescent (all requests started, every timer fired, every loader call completed, no task woken) and the load is still waiting",
+                    i, keys
+                ))
+            }
+        };
+        // a call this request can have joined: started after the request, finished before its completion
+        let joinable = |j: usize| l.calls[j].start > t0 && l.calls[j].end.map_or(false, |e| e < done);
+        match result {
+            Err(e) => {
+                let j = *e as usize;
+                if !(j < l.calls.len() && script(j).fail && joinable(j) && keys.iter().any(|k| l.calls[j].keys.contains(k))) {
+                    return Err(format!("r{} {:?} completed with Err({}), which is not the error of a failed loader call that it joined", i, keys, e));
+                }
+                st.loader_error = true;
+                served_by[i].insert(j);
+            }
+            Ok(m) => {
+                if let Some(k) = m.keys().find(|k| !keys.contains(k)) {
+                    return Err(format!("r{} {:?}: result contains key {} that was not requested", i, keys, k));
+                }
+                let (mut from_cache, mut from_loader) = (false, false);
+                for k in keys.iter().copied().collect::<BTreeSet<u8>>() {
+                    match m.get(&k) {
+                        Some(v) => {
+                            let (j, vk) = ((*v / 1000) as usize, (*v % 1000) as u8);
+                            if j == 0 || j > l.calls.len() || vk != k || !returned(j - 1, k) {
+                                return Err(format!("r{} {:?}: value {} for key {} was never returned by the loader for that key", i, keys, v, k));
+                            }
+                            let j = j - 1;
+                            let cend = l.calls[j].end.unwrap();
+                            if cend < t0 {
+                                // finished before the request began: can only have come from the cache
+                                if cfg.cache == Mode::No {
+                                    return Err(format!("r{} {:?}: key {} got value {} of loader call L{}, which finished before the request started, with NoCache", i, keys, k, v, j));
+                                }
+                                if let Some(j2) = (0..l.calls.len()).find(|j2| returned(*j2, k) && l.calls[*j2].end.map_or(false, |e| e > cend && e < t0)) {
+                                    return Err(format!("r{} {:?}: key {} got the stale value {} of L{}; the cache held the value of L{} when the request started", i, keys, k, v, j, j2));
+                                }
+                                from_cache = true;
+                            } else if joinable(j) {
+                                from_loader = true;
+                                served_by[i].insert(j);
+                            } else {
+                                return Err(format!(
+                                    "r{} {:?}: key {} got value {} of L{}, a loader call that neither finished before the request started (cache) nor started after it",
+                                    i, keys, k, v, j
+                                ));
+                            }
+                        }
+                        None => {
+                            // absent: only if a loader call that the request joined left the key out
+                            match (0..l.calls.len()).find(|j| joinable(*j) && l.calls[*j].keys.contains(&k) && !script(*j).fail && script(*j).omit & (1 << k) != 0) {
+                                Some(j) => {
+                                    st.omission = true;
+                                    from_loader = true;
+                                    served_by[i].insert(j);
+                                }
+                                None => {
+                                    return Err(format!(
+                                        "r{} {:?}: key {} is missing from the result although no loader call started after the request was given the key and left it out",
+                                        i, keys, k
+                                    ))
+                                }
+                            }
+                        }
+                    }
+                }
+                st.cache_hit |= from_cache;
+                st.mixed |= from_cache && from_loader;
+            }
+        }
+    }
+    for j in 0..l.calls.len() {
+        st.shared_batch |= served_by.iter().filter(|s| s.contains(&j)).count() >= 2;
+        // a key asked from the loader again while an earlier call for it was still running
+        st.refetch_in_flight |= (0..j).any(|j0| l.calls[j0].end.unwrap() > l.calls[j].start && l.calls[j0].keys.iter().any(|k| l.calls[j].keys.contains(k)));
+    }
+    Ok(st)
+}
+
+struct RunOut {
+    case: Case,
+    truncated: bool,
+}
+
+/// Build a fresh world and run one schedule to quiescence. `choose` picks among the enabled actions; after
+/// `max_actions` choices the first enabled action is taken until quiescence.
+fn execute(cfg: &Cfg, fine: bool, max_actions: usize, choose: &mut dyn FnMut(&[Act]) -> usize) -> RunOut {
+    let log: SharedLog = Arc::new(Mutex::new(Log::default()));
+    let mut truncated = false;
+    let log2 = log.clone();
+    let res = catch(|| {
+        let mut w = World::new(cfg, log2);
+        let mut steps = 0usize;
+        loop {
+            let en = w.enabled(cfg, fine);
+            if en.is_empty() {
+                break;
+            }
+            let c = if steps < max_actions {
+                choose(&en).min(en.len() - 1)
+            } else {
+                truncated = true;
+                0
+            };
+            steps += 1;
+            w.apply(cfg, en[c], fine);
+        }
+        w.dropped.clone()
+    });
+    let l = locked(&log);
+    let calls: Vec<String> = l
+        .calls
+        .iter()
+        .enumerate()
+        .map(|(j, c)| {
+            let mut k = c.keys.clone();
+            k.sort();
+            format!("L{}{:?}", j, k)
+        })
+        .collect();
+    let results: Vec<String> = (0..cfg.reqs.len()).map(|i| format!("r{}={}", i, l.results[i].as_ref().map(|r| format!("{:?}", r)).unwrap_or_else(|| "-".into()))).collect();
+    let text = format!(
+        "{} [{}] | {} | loader calls: {} | results: {}",
+        cfg.text(),
+        if fine { "every poll is an action" } else { "woken tasks polled after every action" },
+        l.trace.join("; "),
+        calls.join(" "),
+        results.join(" ")
+    );
+    let case = match res {
+        Err(p) => Case::fail(text, format!("panic: {}", p)),
+        Ok(dropped) => match oracle(cfg, &l, &dropped) {
+            Err(why) => Case::fail(text, why),
+            Ok(st) => Case::pass(text)
+                .nontrivial(st.overlapped)
+                .class(cfg.cache.name())
+                .class_if(st.overlapped, "requests-overlap")
+                .class_if(st.shared_batch, "batch-shared-by-requests")
+                .class_if(st.cache_hit, "served-from-cache")
+                .class_if(st.mixed, "partly-from-cache")
+                .class_if(st.at_max, "batch-reaches-max")
+                .class_if(st.over_max, "batch-over-max")
+                .class_if(st.loader_error, "loader-error-delivered")
+                .class_if(st.omission, "loader-omits-key")
+                .class_if(st.dropped, "waiter-dropped")
+                .class_if(st.refetch_in_flight, "key-refetched-while-in-flight"),
+        },
+    };
+    RunOut { case, truncated }
+}
+
+/// Stateless depth-first enumeration of every action sequence of one configuration: each run re-creates the
+/// world and follows the choice stack, then the deepest choice with an untried alternative is advanced.
+/// Returns (runs, complete); None if a violation was reported.
+fn dfs(ctx: &mut Ctx, stream: &str, cfg: &Cfg, fine: bool, max_actions: usize) -> Option<(u64, bool)> {
+    let mut stack: Vec<(usize, usize)> = vec![];
+    let mut runs = 0u64;
+    let mut complete = true;
+    loop {
+        let mut depth = 0usize;
+        let mut mismatch = false;
+        let out = execute(cfg, fine, max_actions, &mut |en: &[Act]| {
+            if depth == stack.len() {
+                stack.push((0, en.len()));
+            } else if stack[depth].1 != en.len() {
+                mismatch = true;
+            }
+            depth += 1;
+            stack[depth - 1].0
+        });
+        runs += 1;
+        complete &= !out.truncated && !mismatch;
+        if ctx.check_case(stream, out.case, json!({ "config": cfg.text() })) {
+            return None;
+        }
+        loop {
+            match stack.pop() {
+                None => return Some((runs, complete)),
+                Some((c, n)) if c + 1 < n => {
+                    stack.push((c + 1, n));
+                    break;
+                }
+                Some(_) => {}
+            }
+        }
+    }
+}
+
+fn subsets3() -> Vec<Vec<u8>> {
+    (1u8..8).map(|m| (0..3u8).filter(|k| m & (1 << k) != 0).collect()).collect()
+}
+
+/// all lists of `n` requests, each a non-empty subset of {0,1,2}
+fn request_lists(n: usize) -> Vec<Vec<Vec<u8>>> {
+    let subs = subsets3();
+    let mut out: Vec<Vec<Vec<u8>>> = vec![vec![]];
+    for _ in 0..n {
+        out = out.into_iter().flat_map(|p| subs.iter().map(move |s| { let mut q = p.clone(); q.push(s.clone()); q })).collect();
+    }
+    out
+}
+
+fn gen_cfg(s: &mut dyn Src) -> Cfg {
+    let n = 1 + s.choose(8);
+    let nkeys = 2 + s.choose(5);
+    let reqs: Vec<Vec<u8>> = (0..n)
+        .map(|_| {
+            let len = [1, 2, 3, 4, 0][s.weighted(&[8, 8, 4, 2, 1])];
+            (0..len).map(|_| s.choose(nkeys) as u8).collect()
+        })
+        .collect();
+    let max_batch = 1 + s.weighted(&[2, 3, 3, 2, 1, 1]);
+    let cache = match s.choose(5) {
+        0 => Mode::No,
+        1 => Mode::Hash,
+        2 => Mode::Lru(2),
+        3 => Mode::Lru(1),
+        _ => Mode::Lru(4),
+    };
+    let script = (0..s.choose(9))
+        .map(|_| match s.weighted(&[5, 1, 1]) {
+            0 => CallScript::default(),
+            1 => CallScript { fail: true, omit: 0 },
+            _ => CallScript { fail: false, omit: s.choose(64) as u8 },
+        })
+        .collect();
+    Cfg { reqs, max_batch, cache, script, max_drops: s.weighted(&[3, 2, 1]) }
+}
+
+pub fn run(ctx: &mut Ctx) {
+    ctx.rule = "worlds = DataLoader over a gated logging scripted Loader + queueing spawner + gate timer; schedule = sequence of {start request, poll a woken \
+                task, fire a timer, complete a loader call, drop a waiting request}. Enumerated completely (depth-first over action sequences, world re-created \
+                per sequence): (a) stream dfs-3req: every list of 1..=3 load_many requests over non-empty subsets of 3 keys x max_batch_size 1..=3 x \
+                NoCache/HashMapCache/LruCache(2) (thorough: + LruCache(1)) x three loader scripts (all calls succeed; first call fails; first call omits key 0 \
+                and second fails), with every woken task polled after each action, at most 1 drop under the all-succeed script (thorough: 2, and 1 under the \
+                others); (b) stream dfs-2req-fine: the same for 1..=2 requests with every single poll as its own action. `exhaustive` refers to (a) and (b). \
+                Thorough adds a bounded enumeration for 3 requests with single polls (all prefixes of 9 actions). Random (proptest): 1..=8 requests of 0..=4 keys \
+                (repeats allowed) over 2..=6 keys, max_batch_size 1..=6, five cache modes, scripted failures/omissions, up to 2 drops, every poll its own action. \
+                non-trivial = at least two requests were in flight at the same time; distinct by configuration + action sequence"
+        .into();
+    ctx.assume("liveness is decided as a safety property: at quiescence of the deterministic executor (every request started, every timer fired, every loader call completed, no task woken) no undropped load may still be pending; spawned tasks are always run and timers always fire eventually");
+    ctx.assume("requests are load_many calls of one key type (load_one is load_many of one key); caching stays enabled; no feed/clear during a run (C29 covers those)");
+    ctx.assume("a value counts as served from the cache if the loader call that produced it finished before the request started; it must then be the most recent value the loader returned for that key before the request (for LruCache the entry may also have been evicted: either the cached value or a fresh loader value is accepted for every key, exact hit/miss behaviour is C29's)");
+    ctx.assume("a key not served from the cache must be in a loader call that started after the request and finished before the request completed; a request that completes with an error must carry the error of such a call that failed and contained one of its keys");
+    ctx.assume("size of a request = number of keys passed to load_many (repeats counted), which is the weaker reading of the batch bound");
+    ctx.assume("the loader returns only keys it was asked for; loader errors are distinct per call; requests of the enumerated configurations start in index order (the configuration list is closed under permutation of the requests)");
+    ctx.assume("harness: the HashMap returned by the loader is re-created until it iterates in ascending key order so that runs with an evicting LruCache are reproducible; the oracle does not depend on it");
+
+    // regression / smoke witness
+    let t0 = Instant::now();
+    let w = Cfg { reqs: vec![vec![0, 1], vec![1, 2], vec![0]], max_batch: 3, cache: Mode::Hash, script: vec![], max_drops: 0 };
+    let out = execute(&w, true, usize::MAX, &mut |_| 0);
+    if ctx.check_case("witness", out.case, json!({})) {
+        return;
+    }
+    ctx.enumerated("witness", 1, true, t0);
+
+    let thorough = ctx.tier == vcore::Tier::Thorough;
+    let caches: Vec<Mode> = if thorough { vec![Mode::No, Mode::Hash, Mode::Lru(2), Mode::Lru(1)] } else { vec![Mode::No, Mode::Hash, Mode::Lru(2)] };
+    // drops allowed per loader script (all succeed / first call fails / first call omits key 0 and second fails)
+    let drops = if thorough { [2, 1, 1] } else { [1, 0, 0] };
+
+    // (a) woken tasks polled after every action, up to 3 requests
+    let a = match sweep(ctx, "dfs-3req", 1..=3, false, SAFETY_CAP, &caches, drops) {
+        Some(c) => c,
+        None => return,
+    };
+    // (b) every poll its own action, up to 2 requests
+    let b = match sweep(ctx, "dfs-2req-fine", 1..=2, true, SAFETY_CAP, &caches, drops) {
+        Some(c) => c,
+        None => return,
+    };
+    ctx.exhaustive = Some(a && b);
+    if thorough {
+        // (c) 3 requests, every poll its own action: every prefix of 9 actions, each continued with the first
+        // enabled action until quiescence (a bounded exploration, reported as incomplete)
+        if sweep(ctx, "dfs-3req-fine-prefix9", 3..=3, true, 9, &[Mode::Hash], [0, 0, 0]).is_none() {
+            return;
+        }
+    }
+
+    // random schedules over larger configurations
+    let n = ctx.tier.pick(200_000u32, 8_000_000u32);
+    ctx.stream("random", n, 320, |s| {
+        let cfg = gen_cfg(s);
+        let mut out = execute(&cfg, true, 4000, &mut |en: &[Act]| {
+            // pick a kind first (so that many droppable waiters do not crowd out progress), then an action of it
+            let kind = |a: &Act| match a {
+                Act::Start(_) => 0,
+                Act::Poll(_) => 1,
+                Act::Fire(_) => 2,
+                Act::Complete(_) => 3,
+                Act::Drop(_) => 4,
+            };
+            let mut w = [0u32; 5];
+            for a in en {
+                w[kind(a)] = [4, 5, 3, 3, 1][kind(a)];
+            }
+            let k = s.weighted(&w);
+            let of_kind: Vec<usize> = (0..en.len()).filter(|i| kind(&en[*i]) == k).collect();
+            of_kind[s.choose(of_kind.len())]
+        });
+        // generator health of this stream is judged on its own classes
+        let own: Vec<String> = out.case.classes.iter().map(|c| format!("random/{}", c)).collect();
+        out.case.classes.extend(own);
+        out.case
+    });
+
+    ctx.floor("random/requests-overlap", 50_000);
+    ctx.floor("random/batch-shared-by-requests", 30_000);
+    ctx.floor("random/served-from-cache", 8_000);
+    ctx.floor("random/partly-from-cache", 4_000);
+    ctx.floor("random/batch-over-max", 15_000);
+    ctx.floor("random/loader-error-delivered", 8_000);
+    ctx.floor("random/loader-omits-key", 6_000);
+    ctx.floor("random/waiter-dropped", 20_000);
+    ctx.floor("served-from-cache", 50_000);
+    ctx.floor("batch-shared-by-requests", 100_000);
+}
+
+/// a run longer than this many actions is cut (and the enumeration reported as incomplete); never reached by
+/// the enumerated configurations
+const SAFETY_CAP: usize = 64;
+
+/// Enumerate every action sequence for every list of `ns` requests over non-empty subsets of 3 keys x
+/// max_batch_size 1..=3 x `caches` x three loader scripts. Returns whether every enumeration was complete;
+/// None if a violation was reported.
+fn sweep(ctx: &mut Ctx, stream: &str, ns: std::ops::RangeInclusive<usize>, fine: bool, max_actions: usize, caches: &[Mode], drops: [usize; 3]) -> Option<bool> {
+    let scripts: [Vec<CallScript>; 3] =
+        [vec![], vec![CallScript { fail: true, omit: 0 }], vec![CallScript { fail: false, omit: 0b001 }, CallScript { fail: true, omit: 0 }]];
+    let t0 = Instant::now();
+    let (mut runs, mut configs, mut complete) = (0u64, 0u64, true);
+    for n in ns {
+        for reqs in request_lists(n) {
+            for max_batch in 1..=3usize {
+                for cache in caches {
+                    for (si, script) in scripts.iter().enumerate() {
+                        let cfg = Cfg { reqs: reqs.clone(), max_batch, cache: *cache, script: script.clone(), max_drops: drops[si] };
+                        let (r, c) = dfs(ctx, stream, &cfg, fine, max_actions)?;
+                        runs += r;
+                        configs += 1;
+                        complete &= c;
+                    }
+                }
+            }
+        }
+    }
+    ctx.enumerated(stream, runs, complete, t0);
+    ctx.note(&format!("{}_configurations", stream), json!(configs));
+    Some(complete)
 }
